@@ -58,3 +58,43 @@ def render_container(case):
                     r['nchildren'] = len(getattr(ch, 'children', ()) or ())
                     out['items'].append(r)
     return out
+
+
+def _lines(box, out):
+    from weasyprint.formatting_structure import boxes
+    if isinstance(box, boxes.LineBox):
+        text = []
+
+        def w(x):
+            if hasattr(x, 'text'):
+                text.append(x.text)
+            for c in getattr(x, 'children', ()) or ():
+                w(c)
+        w(box)
+        out.append((''.join(text), _num(box.position_y), _num(box.height)))
+        return
+    for c in getattr(box, 'children', ()) or ():
+        _lines(_unwrap(c), out)
+
+
+def render_flex_pages(case):
+    """case: dict(html=..., cid='c') -> list of pages, each dict(c=record of the fragment of #cid or None,
+    items=[record + lines [(text, y, height)] of its children with an id, in box-tree order])"""
+    from tests.testing_utils import render_pages
+    pages = render_pages(case['html'])
+    cid = case.get('cid', 'c')
+    out = []
+    for page in pages:
+        c = _find(page, cid)
+        rec = {'c': None, 'items': [], 'page_h': _num(page.height)}
+        if c is not None:
+            rec['c'] = _rec(c)
+            for ch in c.children:
+                ch = _unwrap(ch)
+                if ch.element is not None and ch.element.get('id'):
+                    r = _rec(ch)
+                    r['lines'] = []
+                    _lines(ch, r['lines'])
+                    rec['items'].append(r)
+        out.append(rec)
+    return out
